@@ -18,7 +18,7 @@ LEVEL = "exploration"
 RULE = (
     "case = sequence (<=12) of outbound items sent on the write stream of an entered StdioClient (scripted child): typed message (each of the four envelope classes and the unified class), "
     "plain dict, pre-serialised single-line JSON string (stdlib, both ensure_ascii modes, both separator styles), or an unserialisable object (object(), dict holding a set / bytes / lambda, "
-    "self-referential list, object whose model_dump_json raises) at any position; payloads over JSON values with \\n, \\r, U+2028, NUL, quotes, astral characters, nested nulls, 64-bit ints; "
+    "self-referential list, object whose model_dump_json raises, a dict nested 3000 levels deep) at any position; payloads over JSON values with \\n, \\r, U+2028, NUL, quotes, astral characters, nested nulls, 64-bit ints; "
     "optionally server batches arriving d scheduler turns into the write of chosen items (the reader task then writes a -32600 rejection on the same stdin) and payloads beyond 64 KiB / 64-bit ints / deep nesting; "
     "then the write stream is closed; oracle on the bytes recorded at the child's stdin: ends with LF, exactly one line per serialisable item in order, no raw CR/LF inside a line, each line "
     "is UTF-8 JSON equal (type-strict) to the item with absent optional members omitted, unserialisable items leave no bytes, stdin closed after the write stream closes; "
@@ -34,7 +34,7 @@ META = {
     "technique": "Hypothesis sequences over StdioClient with a scripted process; oracle = byte-level NDJSON reference + type-strict value equality",
 }
 
-BAD_KINDS = ["object", "set_in_dict", "bytes_in_dict", "lambda_in_dict", "self_ref_list", "raising_model", "nan_is_fine_marker"]
+BAD_KINDS = ["object", "set_in_dict", "bytes_in_dict", "lambda_in_dict", "self_ref_list", "raising_model", "too_deep", "nan_is_fine_marker"]
 
 
 class _RaisingModel:
@@ -54,6 +54,14 @@ def make_bad(kind: str) -> Any:
         return {"jsonrpc": "2.0", "method": "x", "params": {"b": b"\xff"}}
     if kind == "lambda_in_dict":
         return {"jsonrpc": "2.0", "method": "x", "params": {"f": (lambda: 1)}}
+    if kind == "too_deep":
+        # nested beyond what any encoder here can walk (and beyond what repr() can print)
+        d: Dict[str, Any] = {}
+        cur = d
+        for _ in range(3000):
+            cur["k"] = {}
+            cur = cur["k"]
+        return {"jsonrpc": "2.0", "method": "x", "params": d}
     if kind == "self_ref_list":
         a: List[Any] = []
         a.append(a)
@@ -329,7 +337,7 @@ def item(draw) -> List[Any]:
         return ["dict", w]
     if k == "str":
         return ["str", draw(wire_message(draw(st.sampled_from(["request", "notification", "response", "error"])))), draw(st.booleans()), draw(st.booleans())]
-    return ["bad", draw(st.sampled_from(BAD_KINDS[:6]))]
+    return ["bad", draw(st.sampled_from(BAD_KINDS[:7]))]
 
 
 @st.composite
@@ -365,14 +373,14 @@ def job_positions(col: Collector, seed: int, tier: str) -> None:
     good = [["typed", "request", {"jsonrpc": "2.0", "id": 1, "method": "a", "params": {"t": "x\ny "}}], ["dict", {"jsonrpc": "2.0", "method": "b"}],
             ["str", {"jsonrpc": "2.0", "id": "2", "result": {"n": None}}, False, True], ["typed", "unified", {"jsonrpc": "2.0", "id": 3, "error": {"code": -1, "message": "é"}}],
             ["typed", "unified", {"jsonrpc": "2.0", "id": None, "error": {"code": -32700, "message": "Parse error"}}]]
-    for kind in BAD_KINDS[:6]:
+    for kind in BAD_KINDS[:7]:
         for pos in range(len(good) + 1):
             items = good[:pos] + [["bad", kind]] + good[pos:]
             case = {"items": items}
             col.record(case, check(case))
         case = {"items": [["bad", kind], ["bad", kind]] + good}
         col.record(case, check(case))
-    col.exhaustive_parts.append("each of 6 unserialisable kinds at each of 6 positions of a fixed 5-item sequence (incl. a null-id error reply)")
+    col.exhaustive_parts.append("each of 7 unserialisable kinds at each of 6 positions of a fixed 5-item sequence (incl. a null-id error reply)")
 
 
 def job_real(col: Collector, seed: int, tier: str, shard: int, n: int) -> None:
